@@ -254,12 +254,52 @@ func c14Accesses(f *ssa.Function, st *types.Interface) []c14Access {
 				}
 			}
 			if len(ops) > 0 {
-				w := strings.HasSuffix(name, ").writeKeyMetadata") || strings.HasSuffix(name, ").cleanupOldVersions")
+				w := strings.HasSuffix(name, ").writeKeyMetadata") || strings.HasSuffix(name, ").cleanupOldVersions") || c14CalleeWrites(cc, st)
 				out = append(out, c14Access{call: ci, name: name, operands: ops, write: w})
 			}
 		}
 	}
+	// an access made by a forwarding closure that is only ever called directly counts at the
+	// closure's call site, with the storage operand read back through the captured variable
+	for _, fw := range c14Forwards(f) {
+		if a, ok := c14ForwardedAccess(fw, st); ok {
+			out = append(out, a)
+		}
+	}
 	return out
+}
+
+// c14ForwardedAccess: the storage access a forwarding closure stands for, if
+// its storage operands resolve to values of the enclosing function.
+func c14ForwardedAccess(fw c14Fwd, st *types.Interface) (c14Access, bool) {
+	inner := c14Accesses(fw.cl, st)
+	if len(inner) != 1 || inner[0].call != ssa.CallInstruction(fw.inner) {
+		return c14Access{}, false
+	}
+	cc := fw.inner.Common()
+	var raw []ssa.Value
+	if cc.IsInvoke() {
+		raw = append(raw, cc.Value)
+	}
+	raw = append(raw, cc.Args...)
+	var ops []ssa.Value
+	for i, a := range raw {
+		if !c14IsStorage(a, st) || (cc.IsInvoke() && i > 0) {
+			continue
+		}
+		r := fw.args[i]
+		if cell, isCell := r.(*ssa.Alloc); isCell {
+			r = c14SoleStore(cell)
+		}
+		if r == nil {
+			return c14Access{}, false
+		}
+		ops = append(ops, r)
+	}
+	if len(ops) == 0 {
+		return c14Access{}, false
+	}
+	return c14Access{call: fw.site, name: inner[0].name, operands: ops, write: inner[0].write}, true
 }
 
 // c14ReqStorageLoad resolves a storage operand to the load of req.Storage it
@@ -804,8 +844,14 @@ func runC14(c *eng.Ctx, thorough bool) {
 		f := h.fn
 		acc := c14Accesses(f, st)
 		// nested closures must not touch storage (they would escape the per-handler analysis)
+		forwarded := map[*ssa.Function]bool{}
+		for _, fw := range c14Forwards(f) {
+			if _, ok := c14ForwardedAccess(fw, st); ok {
+				forwarded[fw.cl] = true
+			}
+		}
 		for _, cl := range eng.Closures(f) {
-			if len(c14Accesses(cl, st)) > 0 {
+			if len(c14Accesses(cl, st)) > 0 && !forwarded[cl] {
 				c.Undecided(cl, "storage access inside a nested closure", cl.Pos(), "a closure nested in a mutating handler touches storage; the lock/transaction rules do not follow it")
 			}
 		}
@@ -969,6 +1015,39 @@ func c14WriteRules(c *eng.Ctx, fname string, patch bool) {
 	)
 	vcas, put, addv := eng.Calls(f, pVcas), eng.Calls(f, pPut), eng.Calls(f, pAddV)
 	wkm, clean, gkm := eng.Calls(f, pWkm), eng.Calls(f, pClean), eng.Calls(f, pGkm)
+	// the version Put may have been extracted (with the marshalling) into a helper of the
+	// package: follow the unique callee that puts Marshal(<parameter>) under <parameter key>
+	// into <parameter storage> and reports success only behind that Put
+	putKeys := map[ssa.CallInstruction][]ssa.Value{} // followed Put -> key argument(s) at the site
+	putVers := map[ssa.CallInstruction][]ssa.Value{} // followed Put -> marshalled object argument(s) at the site
+	if len(put) == 0 {
+		if site, k, v := c14FollowedPut(f); site != nil {
+			put = append(put, site)
+			putKeys[site], putVers[site] = []ssa.Value{k}, []ssa.Value{v}
+		}
+	}
+	gPut := eng.Guard{Desc: "success edge of " + pPut}
+	for _, p := range put {
+		gPut.Edges = append(gPut.Edges, eng.CallOKEdges(p)...)
+		gPut.Pass = append(gPut.Pass, p)
+	}
+	// the metadata write may stand behind a forwarding closure that is called directly
+	wkMeta := map[ssa.CallInstruction]ssa.Value{}
+	for _, w := range wkm {
+		wkMeta[w] = w.Common().Args[3]
+	}
+	reWkm := regexp.MustCompile(pWkm)
+	for _, fw := range c14Forwards(f) {
+		if reWkm.MatchString(eng.CalleeName(fw.inner.Common())) && len(fw.args) == 4 && fw.args[3] != nil {
+			wkm = append(wkm, fw.site)
+			wkMeta[fw.site] = fw.args[3]
+		}
+	}
+	gWkm := eng.Guard{Desc: "success edge of " + pWkm}
+	for _, w := range wkm {
+		gWkm.Edges = append(gWkm.Edges, eng.CallOKEdges(w)...)
+		gWkm.Pass = append(gWkm.Pass, w)
+	}
 	c.Clause("R2", "C14.2")
 	if !(c.Floor(f, "validateCheckAndSetOption call", len(vcas), 1) && c.Floor(f, "version Put", len(put), 1) &&
 		c.Floor(f, "AddVersion call", len(addv), 1) && c.Floor(f, "writeKeyMetadata call", len(wkm), 1) &&
@@ -987,8 +1066,8 @@ func c14WriteRules(c *eng.Ctx, fname string, patch bool) {
 	effects = append(effects, eng.AsInstrs(verOut)...)
 	c.Cut(f, "version Put, AddVersion, metadata write, pruning, reported version", effects, eng.GCallOK(f, pVcas), nil)
 	c.Cut(f, "check-and-set validation", eng.AsInstrs(vcas), eng.GCallOK(f, pGkm), nil)
-	c.Cut(f, "metadata write", eng.AsInstrs(wkm), eng.GCallOK(f, pPut), nil)
-	c.Cut(f, "pruning of old versions, reported version", append(eng.AsInstrs(clean), eng.AsInstrs(verOut)...), eng.GCallOK(f, pWkm), nil)
+	c.Cut(f, "metadata write", eng.AsInstrs(wkm), gPut, nil)
+	c.Cut(f, "pruning of old versions, reported version", append(eng.AsInstrs(clean), eng.AsInstrs(verOut)...), gWkm, nil)
 	c.Clause("R3", "C14.2")
 	c.Before(f, "AddVersion", eng.AsInstrs(addv), "metadata write", eng.AsInstrs(wkm))
 
@@ -1006,20 +1085,29 @@ func c14WriteRules(c *eng.Ctx, fname string, patch bool) {
 	}
 	site := "prov{validated = bumped = persisted = reported metadata object}"
 	var diffs []string
+	// when the record lives in a variable cell (a closure captures it), "the same record" is
+	// "a read of the same variable", provided the variable is not reassigned after validation
+	if cell := c14CellOf(M); cell != nil {
+		if stores, ok := c14CellStores(cell); !ok {
+			diffs = append(diffs, "the metadata variable may be written by a closure or escapes")
+		} else if eng.Reach(eng.Query{Fn: f, StartAfter: vcas[0], Target: eng.IsTarget(stores)}) != nil {
+			diffs = append(diffs, "the metadata variable is reassigned after it was validated")
+		}
+	}
 	for _, a := range addv {
-		if a.Common().Args[0] != M {
+		if !c14SameVar(a.Common().Args[0], M) {
 			diffs = append(diffs, "AddVersion is applied to "+eng.Expr(a.Common().Args[0]))
 		}
 	}
 	for _, w := range wkm {
-		if w.Common().Args[3] != M {
-			diffs = append(diffs, "writeKeyMetadata persists "+eng.Expr(w.Common().Args[3]))
+		if !c14SameVar(wkMeta[w], M) {
+			diffs = append(diffs, "writeKeyMetadata persists "+eng.Expr(wkMeta[w]))
 		}
 	}
 	for _, mu := range verOut {
 		ld, base := c14LoadOfField(mu.Value, "CurrentVersion")
 		switch {
-		case ld == nil || base != M:
+		case ld == nil || !c14SameVar(base, M):
 			diffs = append(diffs, "the reported version is "+eng.Expr(mu.Value))
 		case eng.Reach(eng.Query{Fn: f, Barriers: eng.AsInstrs(addv), Target: func(in ssa.Instruction) bool { return in == ssa.Instruction(ld) }}) != nil:
 			diffs = append(diffs, "the reported version is read before AddVersion incremented it")
@@ -1052,6 +1140,10 @@ func c14WriteRules(c *eng.Ctx, fname string, patch bool) {
 		entry := p.Common().Args[len(p.Common().Args)-1]
 		site = "prov{key of the version Put = getVersionKey(path, meta.CurrentVersion+1) read before AddVersion}"
 		ks := eng.StructLitField(entry, "Key")
+		_, followed := putKeys[p]
+		if followed {
+			ks = putKeys[p]
+		}
 		if len(ks) == 0 {
 			c.Violation(f, site, p.Pos(), "the storage entry of the version Put has no Key set in a literal: "+eng.ExprDeep(entry), nil)
 		}
@@ -1073,7 +1165,7 @@ func c14WriteRules(c *eng.Ctx, fname string, patch bool) {
 			}
 			isLd := func(in ssa.Instruction) bool { return in == ssa.Instruction(ld) }
 			switch {
-			case ld == nil || base != M:
+			case ld == nil || !c14SameVar(base, M):
 				c.Violation(f, site, g.Pos(), "the new version is stored under version number "+eng.ExprDeep(g.Call.Args[3])+" instead of <validated metadata>.CurrentVersion + 1: version numbers are not consecutive / an existing version is overwritten", nil)
 			case plusOne && eng.Reach(eng.Query{Fn: f, StartAfter: addv[0], Target: isLd}) != nil:
 				c.Violation(f, site, g.Pos(), "CurrentVersion+1 is computed for the version key after AddVersion already incremented it: the data lands one version ahead of the metadata", nil)
@@ -1085,10 +1177,20 @@ func c14WriteRules(c *eng.Ctx, fname string, patch bool) {
 		}
 		// the value stored is the marshalled new Version whose Data is the request's data
 		vs := eng.StructLitField(entry, "Value")
+		var vers []ssa.Value
+		if followed {
+			vs = nil
+			vers = putVers[p]
+			c.OK(f, "prov{value of the version Put}", p.Pos(), "the followed helper stores proto.Marshal of the object it is handed")
+		}
 		for _, v := range vs {
 			c.Prov(f, "value of the version Put", p, v, `^call:google\.golang\.org/protobuf/proto\.Marshal#0$`)
 			if m := c14ExtractOf(v, 0); m != nil {
-				ver := m.Call.Args[0]
+				vers = append(vers, m.Call.Args[0])
+			}
+		}
+		{
+			for _, ver := range vers {
 				if mi, ok := ver.(*ssa.MakeInterface); ok {
 					ver = mi.X
 				}
@@ -1105,7 +1207,7 @@ func c14WriteRules(c *eng.Ctx, fname string, patch bool) {
 				}
 			}
 		}
-		if len(vs) == 0 {
+		if len(vs) == 0 && !followed {
 			c.Violation(f, "prov{value of the version Put}", p.Pos(), "the storage entry of the version Put has no Value", nil)
 		}
 	}
@@ -1132,7 +1234,7 @@ func c14WriteRules(c *eng.Ctx, fname string, patch bool) {
 					continue
 				}
 				ld, base := c14LoadOfField(k.Call.Args[3], "CurrentVersion")
-				if ld != nil && base == M {
+				if ld != nil && c14SameVar(base, M) {
 					okBase = true
 				} else {
 					why = "the base version number is " + eng.ExprDeep(k.Call.Args[3])
